@@ -27,6 +27,8 @@ META = {
 }
 META["explanation"] += " " + "(O13) a constructor of QExpression / Value assigns an owning union member only over the zero state left by the union's default initialiser, never after another union member was written by the initialiser list."
 META["explanation"] += " " + "(O14-target) Memory::Dispose(&x): x is a union member of this object or reached through a storage pointer, never a parameter, local or ordinary member. (O15-order) a range Dispose bounded by End()/Size() is not preceded on any path by a write of the size. (O16-redispose) after a manual Dispose of parts of a container's elements none of its element-destroying members is called on it. BORROW additionally: Deallocate of a base pointer kills every pointer into the same (old) storage while the block returned by an allocating accessor is a new generation; element-owned references die with Drop/Clear/Reset."
+META["explanation"] += " " + '(O18-none) a TagBit marked None is not given a block in the same member. (WHO-ptrvalue) pointer-kind Values are created only by the two public entry points.'
+META["explanation"] += " " + "O12-descendant additionally covers everything a Value can hold (ObjectT, ArrayT, StringT by reference, a character pointer), pointers taken from the argument, and the argument's own container handed to the growth of this value's container. O13-rawinit additionally: in QExpression's assignment operator the list member is assigned only where the object was found to hold a list. (OUT-alias) a const member that fills a Value & parameter has excluded &parameter == this before it writes it."
 
 ALLOWED_ALLOC_CLASSES = {"Qentem::Array", "Qentem::String", "Qentem::StringStream", "Qentem::HashTable", "Qentem::HArray",
                          "Qentem::HList", "Qentem::Tags::TagBit"}
@@ -141,6 +143,37 @@ def run(ctx):
                 ok = not [w for w in raw if w != name]
                 r.ob(f.sig, "%s = ..." % name, ok, "the union holds %s when `%s` is assigned" % (
                     "the zero state of its default initialiser" if ok else "the raw bits written by the initialiser of `%s`: the assignment disposes and releases them as if they were this object's own block" % raw[0], name), f.loc(x))
+    # ... and in an assignment operator the union may hold ANY member: the owning one is assigned only where the object was found
+    # to hold it already (a test of the old kind, taken before the kind is overwritten, or a flag saved from it); otherwise it has
+    # to be constructed in place (Memory::Initialize) -- assigning it would release the bits of a number as if they were a block
+    for f in m.functions:
+        if f.inst or f.cls != "Qentem::QExpression" or f.name != "operator=" or not f.cfg:
+            continue
+        par = f.parents()
+        flags = set()
+        for x in astq.nodes_of(f, "DeclStmt"):
+            for d in f.nodes[x]["decls"]:
+                if d.get("tk") == "bool" and d.get("init", -1) >= 0 and "SubOperation" in f.text(d["init"]) and "src" not in f.text(d["init"]):
+                    flags.add(d["n"])
+        for x in f.walk():
+            n = f.nodes[x]
+            if n["k"] in ("BinaryOperator", "CXXOperatorCallExpr") and n.get("op") == "=":
+                lhs = f.call_args(x)[0] if n["k"] == "CXXOperatorCallExpr" else n["ch"][0]
+                ln = f.nodes[f.strip(lhs)]
+                if ln["k"] in ("MemberExpr", "CXXDependentScopeMemberExpr") and ln.get("n") == "SubExpressions" and "src" not in f.text(lhs):
+                    ctx.note_fn(f)
+                    guarded = False
+                    up, child = par.get(x), x
+                    while up is not None:
+                        un = f.nodes[up]
+                        if un["k"] == "IfStmt" and child == un.get("then"):
+                            ct = f.text(un["cond"])
+                            if any(fl in ct for fl in flags) or ("SubOperation" in ct and "src" not in ct):
+                                guarded = True
+                        child = up
+                        up = par.get(up)
+                    r.ob(f.sig, "SubExpressions = ...", guarded, "assigned only where this object was found to hold a list already" if guarded else
+                         "the list member is assigned whatever the union holds: over a number or a variable the assignment releases those bits as if they were this object's block", f.loc(x))
     rules.append(r)
 
     # ---------------- O2e containers dispose their elements
@@ -162,6 +195,12 @@ def run(ctx):
     rules.append(rule_dispose_target(ctx, m))
     rules.append(rule_dispose_order(ctx, m))
     rules.append(rule_redispose(ctx, m))
+    from rules.common import rule_none_owns_nothing
+    rules.append(rule_none_owns_nothing(ctx, m))
+    from rules.common import rule_pointer_value_makers
+    rules.append(rule_pointer_value_makers(ctx, m))
+    from rules.common import rule_out_alias
+    rules.append(rule_out_alias(ctx, m))
 
     # ---------------- O10 destroyed member
     r = Rule("O10-destroyed", "a member destroyed in place is not used again before it is re-initialised", floor=3)
